@@ -28,8 +28,9 @@ EXPLANATION = (
     "read_int_string / relative_unpack an integer-interval solve over the guard facts at the final return proves the "
     "decoded length >= 0 (returned cursor >= input cursor + prefix, <= len(data)); for each `for _ in range(count)` in "
     "a decoder every path through the body passes a checked primitive read."
+    ' Also: the field readers slice the buffer with both bounds (R4: decoding n fields copies O(n) bytes).'
 )
-SHARED = [('C05', ['R4'], 'compressed payloads are inflated by the library reader, which terminates (with an error) on a truncated stream'), ('C05', ['R1'], 'decoders read counted arrays element by element through checked primitives')]
+SHARED = [('C05', ['R3'], 'the string readers hand back an advanced cursor on every path, so count-driven loops consume their input'), ('C05', ['R4'], 'compressed payloads are inflated by the library reader, which terminates (with an error) on a truncated stream'), ('C05', ['R1'], 'decoders read counted arrays element by element through checked primitives')]
 ASSUMPTIONS = ["CRC-32 detects all burst errors of length <= 32 bits", "struct.calcsize(fmt) >= 0; struct raises on malformed formats",
                "snappy library absent: xerial framing loop excluded from the termination claim"]
 READERS = ("relative_unpack", "read_short_bytes", "read_short_ascii", "read_short_text", "read_int_string")
@@ -67,7 +68,7 @@ def run(ctx):
     it = ctx.func("kafkacodec:KafkaCodec._decode_message_set_iter")
 
     # ---- R1 CRC before use
-    r = ctx.rule("R1", "the checksum comparison (raising ChecksumError) dominates the magic dispatch and every field read", 2, "B")
+    r = ctx.rule("R1", "the checksum comparison (raising ChecksumError) dominates the magic dispatch, every field read and every return", 3, "B")
     cf = ctx.cfg(dm)
     facts = ctx.facts(dm)
     raises = [n for n in cf.nodes if n.kind == "stmt" and isinstance(n.stmt, ast.Raise) and "ChecksumError" in norm(n.stmt)]
@@ -91,6 +92,12 @@ def run(ctx):
         for c in n.calls():
             if call_name(c) in ("read_int_string", "gzip_decode", "snappy_decode", "Message"):
                 early.append(norm(c, 40))
+    # ... and nothing is answered before it either: every return of the message decoder (an empty result included) comes
+    # after the comparison - a byte inside the checksummed region must not be able to turn a message into "nothing"
+    pre = [n for n in cf.nodes if n.kind == "stmt" and isinstance(n.stmt, ast.Return) and not cf.dominates([t.id], n.id)]
+    r.check(not pre, "%s#no-answer-before-check" % dm.qname, "the message decoder returns (line %s) without having compared the checksum" % ", ".join(
+        str(n.lineno) for n in pre), where(dm, pre[0].stmt if pre else dm.node), "a single flipped bit in the magic byte makes the message vanish "
+        "from the set instead of failing the fetch with a checksum error")
     r.check(not early, "%s#no-read-before-check" % dm.qname, "fields are read before the checksum comparison: %s" % early, where(dm, dm.node))
 
     # ---- R2 CRC region agreement
@@ -246,7 +253,7 @@ def run(ctx):
 
     # ---- R5 count loops consume
     # floor: 19 loops on the reference tree; the two per-version produce decoders (2 loops each) may legitimately be one
-    r = ctx.rule("R5", "every count-driven loop of a decoder passes a checked read on every path through its body", 15, "B")
+    r = ctx.rule("R5", "every count-driven loop of a decoder passes a checked read on every path through its body", 17, "B")
     kc = prog.cls("kafkacodec:KafkaCodec")
     n_loops = 0
     for f in sorted([x for x in prog.funcs.values() if x.module.name == "kafkacodec" and "decode" in x.qname], key=lambda x: x.qname):
@@ -266,6 +273,36 @@ def run(ctx):
             if isinstance(x, ast.Call) and call_name(x) in ("bytes", "bytearray") and x.args and isinstance(x.args[0], ast.Name) and isinstance(x.func, ast.Name):
                 r.fail("%s#allocation-by-count(%s)" % (f.qname, norm(x)), "allocation sized by a decoded count", where(f, x))
     r.info("count loops found: %d" % n_loops)
+
+    # the block loop of the xerial-framed snappy decoder: every pass hands its block to the decompressor, which rejects an
+    # empty or malformed block - that is what makes a block length <= 0 an error instead of a cursor that stands still
+    sd = ctx.func("codec:snappy_decode")
+    csd_ = ctx.cfg(sd)
+    wl = [n for n in csd_.nodes if n.kind == "test" and isinstance(n.stmt, ast.While)]
+    okb = bool(wl)
+    for w_ in wl:
+        ent = [t for t, lab in csd_.succ[w_.id] if lab and lab[0] == "cond" and lab[2]]
+        dec = [n.id for n in csd_.nodes if any(call_name(c) == "decompress" for c in n.calls())]
+        back = set(csd_.reach(ent, avoid=dec, follow_exc=False)) | set(x for x in ent if x not in dec)
+        okb = okb and bool(dec) and bool(ent) and w_.id not in back
+    r.check(okb, "codec:snappy_decode#block-loop-consumes", "a pass of the block loop can complete without decompressing its block",
+            where(sd, wl[0].stmt if wl else sd.node), "a block length of -4 puts the cursor back on its own length field: a 20-byte CRC-valid "
+            "snappy message makes the decoder spin for ever")
+
+    # variable-length fields are taken out of a buffer by the checked readers only: a decoder that slices its input with a
+    # length it has just decoded must repeat their bounds arithmetic, and getting it wrong by a few bytes turns "message
+    # larger than the buffer" into a checksum failure (the buffer then never grows)
+    hand = []
+    for f_ in sorted([x for x in prog.funcs.values() if x.module.name == "kafkacodec"], key=lambda x: x.qname):
+        dps = [p_ for p_ in f_.params if p_ in ("data", "payload", "msg", "message_set")][:1]
+        for x in walk_body_shallow(f_.body):
+            if isinstance(x, ast.Subscript) and isinstance(x.slice, ast.Slice) and dps and norm(x.value) == dps[0]:
+                parts = [b_ for b_ in (x.slice.lower, x.slice.upper) if b_ is not None]
+                if any(isinstance(y, ast.Name) for b_ in parts for y in ast.walk(b_)):
+                    hand.append("%s line %d: `%s`" % (f_.qname, x.lineno, norm(x, 40)))
+    r.check(not hand, "kafkacodec#fields-through-checked-readers", "a decoder slices its input with decoded lengths itself: %s" % hand,
+            "afkak/kafkacodec.py:1", "an entry 1..12 bytes larger than the fetch buffer is reported as a checksum failure instead of "
+            "fetch-size-too-small: the same fetch is retried for ever")
 
     # ---- R6 no raw unpack on received data
     r = ctx.rule("R6", "struct.unpack* on received data occurs only inside the checked primitives of _util", 1, "A")
